@@ -16,16 +16,16 @@ STRATS = {"plain", "pageby", "pageby_np_col", "pageby_np_first", "subline", "sub
 FULL = dict(Paths={"single", "multi", "figure"}, Strats=STRATS, HdrModes={"default", "explicit", "multi", "multi2", "none", "off"}, NSet={0, 1, 2, 5, 12},
             MSet={1, 2, 4}, BoolSet=B, PlaceSet={"first", "last", "all"}, FootSet={"none", "table", "para"}, HFSet=B, PaperSet={"letter", "landscape", "a4", "custom"}, NrowSet={2, 3, 5, 40},
             ShapeSet={"scalar", "col", "matrix", "recycle"}, SizeSet={"int", "half"}, KindSet={"str", "blanks", "int", "float", "null", "field", "long", "astral"}, ContigSet=B,
-            KeyTypeSet={"str", "int", "date", "null"}, SeqSet={"list", "tuple", "str"}, PriorSet={"none", "narrow"})
+            KeyTypeSet={"str", "int", "date", "null"}, SeqSet={"list", "tuple", "str"}, PriorSet={"none", "narrow"}, VocabSet={"basic", "full"})
 # reduced product: two values per dimension (pairwise interactions complete)
 REDUCED = {"quick": dict(Paths={"single", "multi", "figure"}, Strats={"plain", "subpb", "groupby"}, HdrModes={"default", "off"}, NSet={0, 5}, MSet={2}, BoolSet=B,
                          PlaceSet={"all"}, FootSet={"none", "table"}, HFSet={True}, PaperSet={"letter"}, NrowSet={3}, ShapeSet={"matrix", "recycle"}, SizeSet={"int", "half"},
-                         KindSet={"null", "astral"}, ContigSet=B, KeyTypeSet={"str"}, SeqSet={"list"}, PriorSet={"none"}),
+                         KindSet={"null", "astral"}, ContigSet=B, KeyTypeSet={"str"}, SeqSet={"list"}, PriorSet={"none"}, VocabSet={"basic", "full"}),
            # (about 5 x the quick product: one more strategy, header mode and footnote kind; the first thorough attempt
            #  multiplied every dimension and produced more than a million documents)
            "thorough": dict(Paths={"single", "multi", "figure"}, Strats={"plain", "subpb", "groupby", "pageby"}, HdrModes={"default", "off", "multi"}, NSet={0, 5}, MSet={2}, BoolSet=B,
                             PlaceSet={"all"}, FootSet={"none", "table", "para"}, HFSet={True}, PaperSet={"letter"}, NrowSet={3}, ShapeSet={"matrix", "recycle"},
-                            SizeSet={"int", "half"}, KindSet={"null", "astral"}, ContigSet=B, KeyTypeSet={"str"}, SeqSet={"list"}, PriorSet={"none"})}
+                            SizeSet={"int", "half"}, KindSet={"null", "astral"}, ContigSet=B, KeyTypeSet={"str"}, SeqSet={"list"}, PriorSet={"none"}, VocabSet={"basic", "full"})}
 PLAN = {"quick": dict(sim=500), "thorough": dict(sim=12000)}
 
 
@@ -82,7 +82,7 @@ def run(pid, tier, seed, replay=None):
         # a small exhaustive family around caller-owned objects used before and spanning header rows
         g3 = dict(REDUCED["quick"]); g3.update(IMPL)
         g3.update(Paths={"single"}, Strats={"plain", "subpb", "pageby"}, HdrModes={"default", "multi2"}, NSet={5}, MSet={2, 4}, ShapeSet={"scalar"},
-                  KindSet={"str"}, SizeSet={"int"}, FootSet={"none"}, BoolSet={False}, PriorSet={"none", "narrow"})
+                  KindSet={"str"}, SizeSet={"int"}, FootSet={"none"}, BoolSet={False}, PriorSet={"none", "narrow"}, VocabSet={"basic"})
         got += family.generate(ctx, work, "DocConfig", g3, "objects")
         g2 = dict(FULL); g2.update(IMPL)
         got += family.generate(ctx, work, "DocConfig", g2, "sampled", simulate_num=PLAN[tier]["sim"], depth=40, seed=seed)
